@@ -21,6 +21,7 @@
 
     This file contains definitions only; proofs are in ConnServerProofs.v. *)
 From Coq Require Import List Bool PArith ZArith.
+From KV Require Import Lts.
 Import ListNotations.
 
 (** * Variants of the code that the model can transcribe.
@@ -223,7 +224,8 @@ Inductive label :=
 | LTau
 | LRecvReq            (* stream.Recv returned a RequestMessage *)
 | LRecvEnc            (* stream.Recv returned an encoding error *)
-| LRecvPlain          (* stream.Recv returned a non-encoding decode error *)
+| LRecvPlain          (* stream.Recv returned a non-encoding decode error, forwarded as an encoding error (fix) *)
+| LRecvPlainFatal     (* the same, treated as a transport failure (pinned tree) *)
 | LRecvResp           (* stream.Recv returned a ResponseMessage *)
 | LRecvFail           (* stream.Recv returned a transport error (EOF, closed, ...) *)
 | LRDrop              (* readloop abandons the message it holds *)
@@ -303,7 +305,7 @@ Section Step.
       (if lclosed s then [] else
            [ (LRecvReq, set_rp (R_Send false) s);
              (LRecvEnc, set_rp (R_Send true) s);
-             (LRecvPlain, set_rp (if wrap_decode C then R_Send true else R_TermSwap) s);
+             (if wrap_decode C then (LRecvPlain, set_rp (R_Send true) s) else (LRecvPlainFatal, set_rp R_TermSwap s));
              (LRecvResp, set_rp R_Loop s) ])
       ++ (* transport error: peer closed (EOF), local close (net.ErrClosed), or any I/O error *)
          [(LRecvFail, set_rp R_TermSwap s)]
@@ -455,7 +457,7 @@ Section Step.
       must read), and spontaneous I/O errors on a healthy connection are environment events. *)
   Definition is_internal (s : cstate) (l : label) : bool :=
     match l with
-    | LRecvReq | LRecvEnc | LRecvPlain | LRecvResp => false
+    | LRecvReq | LRecvEnc | LRecvPlain | LRecvPlainFatal | LRecvResp => false
     | LPeerClose | LPeerHalf | LShutdown | LRootCancel => false
     | LWriteOk => false
     | LRecvFail | LWriteFail => conn_over s
@@ -536,3 +538,266 @@ Definition enc_cstate (s : cstate) : positive :=
   (ppair (enc_bool (rxclosed s)) (ppair (enc_chanv (wtx s)) (ppair (enc_chanv (htx s))
   (ppair (enc_errch (ech s)) (ppair (enc_bool (herr s)) (ppair (enc_bool (hooked s))
   (ppair (enc_peer (peer s)) (ppair (enc_bool (lclosed s)) (enc_bool (panicked s)))))))))))))))))).
+
+(** * Ghost layer: the data held by the goroutines, and the histories *)
+
+Record ghost := {
+  nextid : Z;                      (* number of answerable messages read so far *)
+  reads : list (Z * msg);          (* messages returned by stream.Recv (ResponseMessages excluded), oldest first *)
+  rslot : option (Z * msg);        (* readloop's [resp] while it offers it on c.rx *)
+  hslot : option (Z * msg);        (* handleConn's [msg] / [err] *)
+  hresp : option (Z * resp);       (* handleConn's [resp] *)
+  wslot : option (Z * resp);       (* writeloop's [req.msg] *)
+  writes : list (Z * resp);        (* responses written to the socket, oldest first *)
+  events : list label              (* hook / handler / wg events, newest first *)
+}.
+
+Definition ginit : ghost :=
+  {| nextid := 0; reads := []; rslot := None; hslot := None; hresp := None; wslot := None; writes := []; events := [] |}.
+
+Definition opt_list {A} (o : option A) : list A := match o with Some a => [a] | None => [] end.
+
+(** [m]: the message that arrives, for the LRecv labels *)
+Definition gupd (l : label) (m : msg) (g : ghost) : ghost :=
+  match l with
+  | LRecvReq | LRecvEnc | LRecvPlain =>
+    {| nextid := nextid g + 1; reads := reads g ++ [(nextid g, m)]; rslot := Some (nextid g, m);
+       hslot := hslot g; hresp := hresp g; wslot := wslot g; writes := writes g; events := events g |}
+  | LRecvPlainFatal =>
+    {| nextid := nextid g + 1; reads := reads g ++ [(nextid g, m)]; rslot := None;
+       hslot := hslot g; hresp := hresp g; wslot := wslot g; writes := writes g; events := events g |}
+  | LRDrop =>
+    {| nextid := nextid g; reads := reads g; rslot := None;
+       hslot := hslot g; hresp := hresp g; wslot := wslot g; writes := writes g; events := events g |}
+  | LHandoff =>
+    {| nextid := nextid g; reads := reads g; rslot := None;
+       hslot := rslot g; hresp := hresp g; wslot := wslot g; writes := writes g; events := events g |}
+  | LHEnd | LMkErrResp =>
+    {| nextid := nextid g; reads := reads g; rslot := rslot g;
+       hslot := None; hresp := option_map (fun x => (fst x, resp_of (snd x))) (hslot g);
+       wslot := wslot g; writes := writes g;
+       events := match l with LHEnd => l :: events g | _ => events g end |}
+  | LHDrop =>
+    {| nextid := nextid g; reads := reads g; rslot := rslot g;
+       hslot := None; hresp := None; wslot := wslot g; writes := writes g; events := events g |}
+  | LEnqueue =>
+    {| nextid := nextid g; reads := reads g; rslot := rslot g;
+       hslot := hslot g; hresp := None; wslot := hresp g; writes := writes g; events := events g |}
+  | LWriteOk =>
+    {| nextid := nextid g; reads := reads g; rslot := rslot g;
+       hslot := hslot g; hresp := hresp g; wslot := None; writes := writes g ++ opt_list (wslot g); events := events g |}
+  | LWriteFail =>
+    {| nextid := nextid g; reads := reads g; rslot := rslot g;
+       hslot := hslot g; hresp := hresp g; wslot := None; writes := writes g; events := events g |}
+  | LHStart | LHookOk | LHookFail | LTlsOk | LTlsFail | LTermHook | LWgDone | LShutdown | LRootCancel =>
+    {| nextid := nextid g; reads := reads g; rslot := rslot g;
+       hslot := hslot g; hresp := hresp g; wslot := wslot g; writes := writes g; events := l :: events g |}
+  | _ => g
+  end.
+
+(** does the label carry an arriving message, and of which shape *)
+Definition msg_fits (l : label) (m : msg) : bool :=
+  match l, m with
+  | LRecvReq, MReq _ => true
+  | LRecvEnc, MEnc => true
+  | (LRecvPlain | LRecvPlainFatal), MPlain => true
+  | LRecvResp, MResp => true
+  | _, _ => false
+  end.
+Definition is_recv (l : label) : bool :=
+  match l with LRecvReq | LRecvEnc | LRecvPlain | LRecvPlainFatal | LRecvResp => true | _ => false end.
+
+(** The ghost-augmented system over an alphabet [A] of messages the peer may send.
+    Any finite execution uses finitely many messages, so quantifying over [A] covers all inputs. *)
+Definition gstate := (cstate * ghost)%type.
+Definition gstep (C : cfg) (A : list msg) (x : gstate) : list gstate :=
+  flat_map (fun lc : label * cstate =>
+    let (l, c') := lc in
+    if is_recv l then map (fun m => (c', gupd l m (snd x))) (filter (msg_fits l) A)
+    else [(c', gupd l MResp (snd x))]) (cstep_lbl C (fst x)).
+Definition ginit_state (tls : bool) : gstate := (cinit tls, ginit).
+
+(** * Scenario semantics (used by the correspondence check only)
+
+    A scripted client drives one connection; the product of the script with [cstep_lbl]/[gupd]
+    is explored exhaustively (all schedules) and the set of possible observations is compared
+    with what the real server did under the Go scheduler.  The peer-controlled labels are
+    synchronised with the script; everything else is free. *)
+Inductive cact :=
+| CSend (m : msg)   (* write one complete framed message *)
+| CRead             (* read one response (or EOF) *)
+| CClose | CHalf
+| CShutdown         (* the harness calls srv.Shutdown() (its recvCancel) *)
+| CTimer.           (* Shutdown's 3 s timer fires: srv.cancel() *)
+
+Inductive obs := ORes (id : Z) (r : resp) | OEof | OBlocked.
+
+Record scn := {
+  s_tls : option bool;    (* None: plain connection; Some ok: TLS handshake outcome *)
+  s_hook : bool;          (* connect hook succeeds *)
+  s_sync : bool;          (* tiny server->client buffer: a write completes only when the client reads *)
+  s_script : list cact
+}.
+
+Record pstate := {
+  p_c : cstate; p_g : ghost;
+  p_inq : list msg;            (* written by the client, not yet returned by stream.Recv *)
+  p_outq : list (Z * resp);    (* written by the server, not yet read by the client *)
+  p_got : list obs;            (* client observations, newest first *)
+  p_script : list cact
+}.
+
+Definition pinit (sc : scn) : pstate :=
+  {| p_c := cinit (match s_tls sc with Some _ => true | None => false end); p_g := ginit;
+     p_inq := []; p_outq := []; p_got := []; p_script := s_script sc |}.
+
+Definition is_nil {A} (l : list A) : bool := match l with [] => true | _ => false end.
+Definition peer_open (c : cstate) : bool := match peer c with POpen => true | _ => false end.
+Definition peer_gone (c : cstate) : bool := match peer c with PClosed => true | _ => false end.
+Definition h_done (c : cstate) : bool := match hp c with H_Done => true | _ => false end.
+
+Definition srv_moves (C : cfg) (sc : scn) (p : pstate) : list pstate :=
+  let c := p_c p in let g := p_g p in
+  flat_map (fun lc : label * cstate =>
+    let (l, c') := lc in
+    let plain := {| p_c := c'; p_g := gupd l MResp g; p_inq := p_inq p; p_outq := p_outq p; p_got := p_got p; p_script := p_script p |} in
+    match l with
+    | LRecvReq | LRecvEnc | LRecvPlain | LRecvPlainFatal | LRecvResp =>
+      match p_inq p with
+      | m :: rest =>
+        if msg_fits l m then [{| p_c := c'; p_g := gupd l m g; p_inq := rest; p_outq := p_outq p; p_got := p_got p; p_script := p_script p |}] else []
+      | [] => []
+      end
+    | LRecvFail => if lclosed c || (is_nil (p_inq p) && negb (peer_open c)) then [plain] else []
+    | LWriteOk =>
+      if s_sync sc then
+        match p_script p, wslot g with
+        | CRead :: rest, Some w =>
+          [{| p_c := c'; p_g := gupd l MResp g; p_inq := p_inq p; p_outq := p_outq p; p_got := ORes (fst w) (snd w) :: p_got p; p_script := rest |}]
+        | _, _ => []
+        end
+      else [{| p_c := c'; p_g := gupd l MResp g; p_inq := p_inq p; p_outq := p_outq p ++ opt_list (wslot g); p_got := p_got p; p_script := p_script p |}]
+    | LWriteFail => if lclosed c || peer_gone c then [plain] else []
+    | LPeerClose | LPeerHalf | LShutdown => []
+    | LRootCancel => if rctx c && h_done c then [plain] else []
+    | LTlsOk => match s_tls sc with Some true => [plain] | _ => [] end
+    | LTlsFail => match s_tls sc with Some false => [plain] | _ => [] end
+    | LHookOk => if s_hook sc then [plain] else []
+    | LHookFail => if s_hook sc then [] else [plain]
+    | _ => [plain]
+    end) (cstep_lbl C c).
+
+Definition cli_moves (sc : scn) (p : pstate) : list pstate :=
+  let c := p_c p in let g := p_g p in
+  match p_script p with
+  | [] => []
+  | CSend m :: rest =>
+    if peer_open c then [{| p_c := c; p_g := g; p_inq := p_inq p ++ [m]; p_outq := p_outq p; p_got := p_got p; p_script := rest |}] else []
+  | CRead :: rest =>
+    match p_outq p with
+    | r :: q => [{| p_c := c; p_g := g; p_inq := p_inq p; p_outq := q; p_got := ORes (fst r) (snd r) :: p_got p; p_script := rest |}]
+    | [] => if lclosed c then [{| p_c := c; p_g := g; p_inq := p_inq p; p_outq := []; p_got := OEof :: p_got p; p_script := rest |}] else []
+    end
+  | CClose :: rest =>
+    if panicked c then [] else
+    [{| p_c := set_peer PClosed c; p_g := g; p_inq := p_inq p; p_outq := []; p_got := p_got p; p_script := rest |}]
+  | CHalf :: rest =>
+    if panicked c then [] else
+    [{| p_c := (match peer c with POpen => set_peer PHalf c | _ => c end); p_g := g; p_inq := p_inq p; p_outq := p_outq p; p_got := p_got p; p_script := rest |}]
+  | CShutdown :: rest =>
+    if panicked c then [] else
+    [{| p_c := set_rctx true c; p_g := gupd LShutdown MResp g; p_inq := p_inq p; p_outq := p_outq p; p_got := p_got p; p_script := rest |}]
+  | CTimer :: rest =>
+    if panicked c then [] else
+    [{| p_c := set_root true c; p_g := gupd LRootCancel MResp g; p_inq := p_inq p; p_outq := p_outq p; p_got := p_got p; p_script := rest |}]
+  end.
+
+Definition pstep (C : cfg) (sc : scn) (p : pstate) : list pstate :=
+  match srv_moves C sc p ++ cli_moves sc p with
+  | [] =>
+    (* nothing can move: a pending read times out *)
+    match p_script p with
+    | CRead :: rest =>
+      if panicked (p_c p) then [] else
+      (* the scripted client then gives up and closes *)
+      [{| p_c := p_c p; p_g := p_g p; p_inq := p_inq p; p_outq := p_outq p; p_got := OBlocked :: p_got p; p_script := [CClose] |}]
+    | _ => []
+    end
+  | l => l
+  end.
+
+(** encoding of product states for the (untrusted) exploration *)
+Definition enc_z (z : Z) : positive := Z.to_pos (z + 3).
+Definition enc_oid {A} (o : option (Z * A)) : positive := match o with Some x => enc_z (fst x) | None => 1%positive end.
+Fixpoint enc_plist (l : list positive) : positive :=
+  match l with [] => 1%positive | x :: t => ppair x (enc_plist t) end.
+Definition enc_obs (o : obs) : positive :=
+  match o with ORes id _ => enc_z id | OEof => 1%positive | OBlocked => 2%positive end.
+Definition enc_pstate (p : pstate) : positive :=
+  ppair (enc_cstate (p_c p))
+  (ppair (Pos.of_succ_nat (length (p_script p)))
+  (ppair (Pos.of_succ_nat (length (p_inq p)))
+  (ppair (enc_plist [enc_oid (rslot (p_g p)); enc_oid (hslot (p_g p)); enc_oid (hresp (p_g p)); enc_oid (wslot (p_g p))])
+  (ppair (enc_plist (map (fun x => enc_z (fst x)) (p_outq p)))
+         (enc_plist (map enc_obs (p_got p))))))).
+
+Record outcome := { o_got : list obs; o_panic : bool; o_leak : bool; o_hooks : list label }.
+
+(** hook / wg events of the connection, oldest first *)
+Definition hook_events (g : ghost) : list label :=
+  rev (filter (fun l => match l with LHookOk | LHookFail | LTermHook | LHStart | LHEnd => true | _ => false end) (events g)).
+
+Definition outcome_of (p : pstate) : outcome :=
+  {| o_got := rev (p_got p); o_panic := panicked (p_c p);
+     o_leak := negb (panicked (p_c p)) && negb (all_done (p_c p));
+     o_hooks := hook_events (p_g p) |}.
+
+(** all observations the model allows for a scenario (exhaustive exploration of the product) *)
+Definition outcomes (C : cfg) (sc : scn) (fuel : nat) : list outcome * bool :=
+  let r := reach_set (pstep C sc) enc_pstate fuel (pinit sc) in
+  (map outcome_of (filter (fun p => is_nil (pstep C sc p)) (fst r)), snd r).
+
+Definition item_res_eqb (a b : item_res) : bool :=
+  match a, b with
+  | ISuccess, ISuccess => true
+  | IFailed x, IFailed y => Z.eqb x y
+  | _, _ => false
+  end.
+Fixpoint list_eqb' {A} (eqb : A -> A -> bool) (a b : list A) : bool :=
+  match a, b with
+  | [], [] => true
+  | x :: xs, y :: ys => eqb x y && list_eqb' eqb xs ys
+  | _, _ => false
+  end.
+Definition resp_eqb (a b : resp) : bool :=
+  match a, b with
+  | RItems x, RItems y => list_eqb' item_res_eqb x y
+  | RInvalid, RInvalid => true
+  | _, _ => false
+  end.
+(** the invalid-message response carries no identifier: compared by position only *)
+Definition obs_eqb (a b : obs) : bool :=
+  match a, b with
+  | ORes i x, ORes j y => resp_eqb x y && (match x with RInvalid => true | _ => Z.eqb i j end)
+  | OEof, OEof => true
+  | OBlocked, OBlocked => true
+  | _, _ => false
+  end.
+Definition hook_label_eqb (a b : label) : bool :=
+  match a, b with
+  | LHookOk, LHookOk | LHookFail, LHookFail | LTermHook, LTermHook | LHStart, LHStart | LHEnd, LHEnd => true
+  | _, _ => false
+  end.
+Definition outcome_eqb (a b : outcome) : bool :=
+  list_eqb' obs_eqb (o_got a) (o_got b) && Bool.eqb (o_panic a) (o_panic b) && Bool.eqb (o_leak a) (o_leak b)
+  && list_eqb' hook_label_eqb (o_hooks a) (o_hooks b).
+
+(** one row of the correspondence table: the scenario and what the real server did
+    ([None]: the process died) *)
+Definition scn_row_ok (C : cfg) (fuel : nat) (r : scn * option outcome) : bool :=
+  let (sc, o) := r in
+  let (outs, complete) := outcomes C sc fuel in
+  complete && match o with
+              | None => existsb o_panic outs
+              | Some o => existsb (outcome_eqb o) outs
+              end.
